@@ -53,10 +53,19 @@ def prop_theorems(prop):
         raise FileNotFoundError(os.path.join(LEAN, "MirosModel", "Props", prop + ".lean"))
     for path in paths:
         src = open(path).read()
-        ns = re.search(r"^namespace\s+(\S+)", src, re.M)
-        prefix = ns.group(1) + "." if ns else ""
-        names = re.findall(r"^theorem\s+([^\s:({\[]+)", src, re.M)
-        out += [prefix + n for n in names]
+        stack = []
+        for line in strip_comments(src).splitlines():
+            m = re.match(r"^namespace\s+(\S+)", line)
+            if m:
+                stack.append(m.group(1))
+                continue
+            m = re.match(r"^end\s+(\S+)", line)
+            if m and stack and stack[-1] == m.group(1):
+                stack.pop()
+                continue
+            m = re.match(r"^(?:protected\s+|private\s+)?theorem\s+([^\s:({\[]+)", line)
+            if m:
+                out.append(".".join(stack + [m.group(1)]))
         srcs += src
     return out, srcs
 
